@@ -247,9 +247,26 @@ func c16b(c *Ctx) {
 		return
 	}
 	sg, vd, cs := signs[0].Call, valid[0].Call, check[0].Call
+	// the same variable, and not written again once it has been validated
 	same := func(a, b ast.Expr) bool {
 		oa, ob := objOf(info, a), objOf(info, b)
-		return oa != nil && oa == ob && len(f.Defs(oa)) == 1
+		if oa == nil || oa != ob {
+			return false
+		}
+		if len(f.Defs(oa)) == 1 {
+			return true
+		}
+		g := f.Graph()
+		for _, d := range f.Defs(oa) {
+			ds := f.Find(func(n ast.Node) bool { return n == d.Node })
+			if len(ds) != 1 {
+				return false
+			}
+			if pt, _ := g.Reach(valid[0].After(), Cut{}, atSite(ds[0])); pt != nil {
+				return false
+			}
+		}
+		return true
 	}
 	var p []string
 	if !ck(argByName(info, sg, "origin"), "Origin") {
